@@ -243,9 +243,12 @@ struct ScenarioAgg {
     found: Vec<Found>,
 }
 
+/// messages of a worker's reader thread, tagged with the slot AND the worker's process id: a
+/// worker killed by the watchdog is replaced in the same slot, and its reader thread reports the
+/// end of its pipe only afterwards - that report must not be taken for the replacement's
 enum Msg {
-    Line(usize, String),
-    Eof(usize),
+    Line(usize, u32, String),
+    Eof(usize, u32),
 }
 
 /// CPU seconds (user + system) consumed so far by process `pid`, from /proc/<pid>/stat. The
@@ -305,19 +308,20 @@ fn spawn_worker(
         .unwrap_or_else(|e| crate::harness_error(&format!("cannot spawn worker: {e}")));
     let stdout = child.stdout.take().unwrap();
     let tx = tx.clone();
+    let pid = child.id();
     std::thread::spawn(move || {
         let rd = BufReader::new(stdout);
         for line in rd.lines() {
             match line {
                 Ok(l) => {
-                    if tx.send(Msg::Line(slot_id, l)).is_err() {
+                    if tx.send(Msg::Line(slot_id, pid, l)).is_err() {
                         return;
                     }
                 },
                 Err(_) => break,
             }
         }
-        let _ = tx.send(Msg::Eof(slot_id));
+        let _ = tx.send(Msg::Eof(slot_id, pid));
     });
     Slot { child, start, end, current: None, last_progress: Instant::now(), cpu_at_progress: 0.0, got_agg: false }
 }
@@ -365,8 +369,11 @@ fn run_scenario(exe: &std::path::Path, sc: &Scenario, base: u64, total: u64, job
             pending.clear();
         }
         match rx.recv_timeout(Duration::from_millis(200)) {
-            Ok(Msg::Line(i, line)) => {
+            Ok(Msg::Line(i, pid, line)) => {
                 let Some(slot) = slots[i].as_mut() else { continue };
+                if slot.child.id() != pid {
+                    continue;
+                }
                 slot.last_progress = Instant::now();
                 slot.cpu_at_progress = cpu_seconds(slot.child.id()).unwrap_or(slot.cpu_at_progress);
                 // protocol lines start with '@'; anything else is output of the code under test
@@ -429,7 +436,10 @@ fn run_scenario(exe: &std::path::Path, sc: &Scenario, base: u64, total: u64, job
                     _ => {},
                 }
             },
-            Ok(Msg::Eof(i)) => {
+            Ok(Msg::Eof(i, pid)) => {
+                if slots[i].as_ref().map(|s| s.child.id()) != Some(pid) {
+                    continue;
+                }
                 if let Some(mut slot) = slots[i].take() {
                     let status = slot.child.wait().ok();
                     if !slot.got_agg {
@@ -737,6 +747,10 @@ struct Minimiser<'a> {
     subproc: bool,
     evals: u64,
     budget: u64,
+    /// CPU seconds of this process at which in-process minimisation stops (a violation whose
+    /// every candidate is a full proof must not keep the batch busy for hours; what has been
+    /// removed by then is kept, and the replay file reproduces either way)
+    cpu_deadline: f64,
 }
 
 impl Minimiser<'_> {
@@ -744,6 +758,9 @@ impl Minimiser<'_> {
     /// run actually consumed) when it does.
     fn test(&mut self, cand: &[Vec<u64>; 3]) -> Option<[Vec<u64>; 3]> {
         if self.evals >= self.budget {
+            return None;
+        }
+        if !self.subproc && cpu_seconds(std::process::id()).unwrap_or(0.0) > self.cpu_deadline {
             return None;
         }
         self.evals += 1;
@@ -775,7 +792,15 @@ fn trim(values: &mut [Vec<u64>; 3]) {
 /// Shrinks `values` while the same violation key reproduces. Order: faults, schedule, workload;
 /// within a stream: truncate (zero the tail), zero blocks, then reduce surviving values.
 fn minimise(exe: &std::path::Path, sc: &Scenario, key: &str, values: [Vec<u64>; 3], subproc: bool) -> ([Vec<u64>; 3], u64) {
-    let mut m = Minimiser { exe, sc, key: key.to_string(), subproc, evals: 0, budget: if !subproc { 3000 } else if key.starts_with("hang") { 30 } else { 150 } };
+    let mut m = Minimiser {
+        exe,
+        sc,
+        key: key.to_string(),
+        subproc,
+        evals: 0,
+        budget: if !subproc { 3000 } else if key.starts_with("hang") { 30 } else { 150 },
+        cpu_deadline: cpu_seconds(std::process::id()).unwrap_or(0.0) + 90.0,
+    };
     let mut cur = values;
     trim(&mut cur);
     let order = [2usize, 1, 0];
